@@ -30,7 +30,7 @@ type c12Flavor struct {
 	Received string `json:"received"` // on | off
 	SentBy   string `json:"sentby"`   // same | different | table-name | unknown-name | true-port
 	RPort    bool   `json:"rport"`
-	Backend  string `json:"backend"` // udp | tcp
+	Backend  string `json:"backend"`          // udp | tcp
 	Branch   string `json:"branch,omitempty"` // "" pairwise unrelated | prefix: every branch is a proper prefix of the next one
 }
 
